@@ -245,7 +245,7 @@ func runC21(c *Ctx) {
 	c21ChangeResult(c, p, pk)
 
 	// (5) applyIncrementalChanges
-	ai :=p.SSAFunc(pk, "LSPServer.applyIncrementalChanges")
+	ai := p.SSAFunc(pk, "LSPServer.applyIncrementalChanges")
 	if ai == nil {
 		c.Undecided(r5, "anchor:LSPServer.applyIncrementalChanges", "", "does not resolve")
 		return
